@@ -106,7 +106,7 @@ def handleDisk (j : Json) : Except String Json := do
     | "release" => do pure (Disk.Op.release (← getNat o "w"))
     | "kill" => pure Disk.Op.kill
     | _ => throw s!"bad disk op {k}")
-  let f : Nat → Int := fun i => (i : Int) * 7 + 3
+  let f : Nat → Int := fun i => if i % 3 == 0 then -1 else (i : Int) * 7 + 3      -- -1 stands for Python's None
   let (s, outs) := Disk.run f (Disk.init n nd) ops
   pure (Json.mkObj [
     ("outs", Json.arr (outs.map diskOutJ).toArray),
